@@ -314,7 +314,9 @@ class DefInt(IntVal):
 
 
 DIMS = [0, 1, 3]
-RA = [10, 11, 12, 13, 14, 15, 16, 17]
+RA = [10 + i for i in range(64)]   # position-dependent: a short copy or a wrong extent shows
+DIMS2 = [2, 3, 4]
+DIMS3 = [1, 2, 2]
 VSZ = [0, 1, 3, 4]
 CARR = [[], ["ab  "], ["ab  ", "    ", "wxyz"]]
 
@@ -328,6 +330,145 @@ class DimArg(K):
     def body(self, lang): return ['printf(" %s=i:%%d", %s);' % (self.n, self.n)]
     def factual(self, r): return "%d_C_INT" % DIMS[r % 3]
     def lib_tokens(self, r, cnt, env): return ["%s=i:%d" % (self.n, DIMS[r % 3])]
+
+
+class DimArg2(DimArg):
+    def factual(self, r): return "%d_C_INT" % DIMS2[r % 3]
+    def lib_tokens(self, r, cnt, env): return ["%s=i:%d" % (self.n, DIMS2[r % 3])]
+
+
+class DimArg3(DimArg):
+    def factual(self, r): return "%d_C_INT" % DIMS3[r % 3]
+    def lib_tokens(self, r, cnt, env): return ["%s=i:%d" % (self.n, DIMS3[r % 3])]
+
+
+def _ext(r, rank):
+    e = [DIMS[r % 3], DIMS2[r % 3], DIMS3[r % 3]][:rank]
+    n = 1
+    for x in e:
+        n *= x
+    return e, n
+
+
+class PtrPtrOutN(K):
+    """int n, int m[, int k], int **p +intent(out)+dimension(n,m[,k]): Fortran pointer of rank 2 / 3"""
+    nvals = 3
+    no_cfi = True
+    rank = 2
+
+    def _d(self): return ["n", "m", "k"][:self.rank]
+    def yaml(self):
+        return ", ".join("int %s%s" % (d, self.n) for d in self._d()) + ", int **%s +intent(out)+dimension(%s)" % (
+            self.n, ",".join(d + self.n for d in self._d()))
+    def cparam(self, lang): return ", ".join("int %s%s" % (d, self.n) for d in self._d()) + ", int **%s" % self.n
+    def body(self, lang):
+        return ['printf(" %s%s=i:%%d", %s%s);' % (d, self.n, d, self.n) for d in self._d()] + ["*%s = RA;" % self.n]
+    def fdecl(self): return ["integer(C_INT), pointer :: %s(%s)" % (self.n, ",".join(":" * 1 for _ in self._d()))]
+    def fset(self, r): return ["nullify(%s)" % self.n]
+    def factual(self, r):
+        e, _ = _ext(r, self.rank)
+        return ", ".join("%d_C_INT" % x for x in e) + ", " + self.n
+    def fprint(self): return ["call parr('%s_shape', int(shape(%s), C_INT))" % (self.n, self.n),
+                              "call parr('%s', reshape(%s, [size(%s)]))" % (self.n, self.n, self.n)]
+    def lib_tokens(self, r, cnt, env):
+        e, _ = _ext(r, self.rank)
+        return ["%s%s=i:%d" % (d, self.n, x) for d, x in zip(self._d(), e)]
+    def f_tokens(self, r, cnt, env):
+        e, n = _ext(r, self.rank)
+        return ["%s_shape=a:%s" % (self.n, "".join("%d," % x for x in e)), "%s=a:%s" % (self.n, "".join("%d," % v for v in RA[:n]))]
+
+
+class PtrPtrOut3(PtrPtrOutN):
+    rank = 3
+
+
+class ArrAllocOutN(K):
+    """int n, int m, int *o +intent(out)+deref(allocatable)+dimension(n,m): the wrapper allocates (n,m)"""
+    nvals = 3
+    rank = 2
+
+    def _d(self): return ["n", "m", "k"][:self.rank]
+    def yaml(self):
+        return ", ".join("int %s%s" % (d, self.n) for d in self._d()) + ", int *%s +intent(out)+deref(allocatable)+dimension(%s)" % (
+            self.n, ",".join(d + self.n for d in self._d()))
+    def cparam(self, lang): return ", ".join("int %s%s" % (d, self.n) for d in self._d()) + ", int *%s" % self.n
+    def body(self, lang):
+        tot = "*".join(d + self.n for d in self._d())
+        return ['printf(" %s%s=i:%%d", %s%s);' % (d, self.n, d, self.n) for d in self._d()] + \
+               ['{ int i_; for (i_ = 0; i_ < %s; i_++) %s[i_] = 500 + i_; }' % (tot, self.n)]
+    def fdecl(self): return ["integer(C_INT), allocatable :: %s(%s)" % (self.n, ",".join(":" for _ in self._d()))]
+    def fset(self, r): return ["if (allocated(%s)) deallocate(%s)" % (self.n, self.n)]
+    def factual(self, r):
+        e, _ = _ext(r, self.rank)
+        return ", ".join("%d_C_INT" % x for x in e) + ", " + self.n
+    def fprint(self): return ["call parr('%s_shape', int(shape(%s), C_INT))" % (self.n, self.n),
+                              "call parr('%s', reshape(%s, [size(%s)]))" % (self.n, self.n, self.n)]
+    def lib_tokens(self, r, cnt, env):
+        e, _ = _ext(r, self.rank)
+        return ["%s%s=i:%d" % (d, self.n, x) for d, x in zip(self._d(), e)]
+    def f_tokens(self, r, cnt, env):
+        e, n = _ext(r, self.rank)
+        return ["%s_shape=a:%s" % (self.n, "".join("%d," % x for x in e)), "%s=a:%s" % (self.n, "".join("%d," % (500 + i) for i in range(n)))]
+
+
+class ImplText(K):
+    """char *text +intent(out)+charlen(L), int l +implied(len(text)), int t +implied(len_trim(text)), bool b +implied(true),
+    int a +implied(len(text)*2-1)"""
+    nvals = 3
+    TXT = ["qq          ", "            ", "abcdefghijkl"]
+
+    def yaml(self):
+        n = self.n
+        return ("char *%s +intent(inout), int xl%s +implied(len(%s)), int xt%s +implied(len_trim(%s)), "
+                "bool xb%s +implied(true), bool xc%s +implied(false), int xa%s +implied(len(%s)*2-1)" % (n, n, n, n, n, n, n, n, n))
+    def cparam(self, lang): return "char *%s, int xl%s, int xt%s, bool xb%s, bool xc%s, int xa%s" % ((self.n,) * 6)
+    def body(self, lang):
+        n = self.n
+        return ['printf(" %s=s:[%%s] xl%s=i:%%d xt%s=i:%%d xb%s=b:%%d xc%s=b:%%d xa%s=i:%%d", %s, xl%s, xt%s, xb%s ? 1 : 0, xc%s ? 1 : 0, xa%s);' % (
+            n, n, n, n, n, n, n, n, n, n, n, n)]
+    def fdecl(self): return ["character(len=%d) :: %s" % (L, self.n)]
+    def fset(self, r): return ["%s = %s" % (self.n, fstr(self.TXT[r % 3]))]
+    def lib_tokens(self, r, cnt, env):
+        t = self.TXT[r % 3]
+        n = self.n
+        return ["%s=s:[%s]" % (n, rtrim(t)), "xl%s=i:%d" % (n, L), "xt%s=i:%d" % (n, len(rtrim(t))), "xb%s=b:1" % n, "xc%s=b:0" % n,
+                "xa%s=i:%d" % (n, L * 2 - 1)]
+
+
+class GenVoid(K):
+    """void *addr, int type +implied(type(addr)), size_t n +implied(size(addr)) with fortran_generic variants that change
+    the TYPE of addr (int / float / double, rank 1): the library interprets the data by the type code it is given"""
+    nvals = 6
+    gen = [("(int *%s +rank(1)+deref(raw)+intent(in))", "_int"), ("(float *%s +rank(1)+deref(raw)+intent(in))", "_float"),
+           ("(double *%s +rank(1)+deref(raw)+intent(in))", "_double")]
+    needs_type_defines = True
+    DATA = [("i", [3, -4]), ("f", ["1.5", "2.5", "-0.25"]), ("d", ["0.125"]), ("i", []), ("f", ["8.0"]), ("d", ["2.5", "3.5"])]
+
+    def yaml(self):
+        n = self.n
+        return "void *%s, int ty%s +implied(type(%s)), size_t nn%s +implied(size(%s))" % (n, n, n, n, n)
+    def cparam(self, lang): return "void *%s, int ty%s, size_t nn%s" % (self.n, self.n, self.n)
+    def body(self, lang):
+        n = self.n
+        return ['{ size_t i_; switch (ty%s) {' % n,
+                ' case SH_TYPE_INT: printf(" ty%s=INT %s=a:"); for (i_ = 0; i_ < nn%s; i_++) printf("%%d,", ((int *) %s)[i_]); break;' % (n, n, n, n),
+                ' case SH_TYPE_FLOAT: printf(" ty%s=FLOAT %s=a:"); for (i_ = 0; i_ < nn%s; i_++) printf("%%.9g,", (double) ((float *) %s)[i_]); break;' % (n, n, n, n),
+                ' case SH_TYPE_DOUBLE: printf(" ty%s=DOUBLE %s=a:"); for (i_ = 0; i_ < nn%s; i_++) printf("%%.9g,", ((double *) %s)[i_]); break;' % (n, n, n, n),
+                ' default: printf(" ty%s=OTHER(%%d) nn=%%d", ty%s, (int) nn%s); } }' % (n, n, n)]
+    def fdecl(self):
+        n = self.n
+        return ["integer(C_INT), allocatable :: %s_i(:)" % n, "real(C_FLOAT), allocatable :: %s_f(:)" % n, "real(C_DOUBLE), allocatable :: %s_d(:)" % n]
+    def fset(self, r):
+        k, vals = self.DATA[r % 6]
+        v = "%s_%s" % (self.n, k)
+        suf = {"i": "_C_INT", "f": "_C_FLOAT", "d": "_C_DOUBLE"}[k]
+        return ["if (allocated(%s)) deallocate(%s)" % (v, v), "allocate(%s(%d))" % (v, len(vals))] + \
+               ["%s(%d) = %s%s" % (v, i + 1, x, suf) for i, x in enumerate(vals)]
+    def factual(self, r): return "%s_%s" % (self.n, self.DATA[r % 6][0])
+    def lib_tokens(self, r, cnt, env):
+        k, vals = self.DATA[r % 6]
+        name = {"i": "INT", "f": "FLOAT", "d": "DOUBLE"}[k]
+        return ["ty%s=%s" % (self.n, name), "%s=a:%s" % (self.n, "".join(("%d," % x) if k == "i" else ("%.9g," % float(x)) for x in vals))]
 
 
 class ArrOut(K):
@@ -548,7 +689,7 @@ class GenArr(K):
 
 
 ARG_KINDS_C = [IntVal, DblVal, BoolVal, BoolOut, BoolInout, IntOut, IntInout, HiddenOut, ArrIn, ArrInout, ArrOut, ArrAllocOut,
-               PtrPtrOut, CharArrIn, CstrIn, CstrOut, CstrInout]
+               PtrPtrOut, PtrPtrOutN, PtrPtrOut3, ArrAllocOutN, ImplText, CharArrIn, CstrIn, CstrOut, CstrInout]
 ARG_KINDS_CXX = ARG_KINDS_C + [IntRefOut, StringIn, StringOut, StringInout, VecIn, VecOut, VecOutAlloc, VecInout, VecInoutAlloc]
 
 # ------------------------------------------------------------------ results
@@ -573,6 +714,18 @@ RESULTS = {
              lambda c: "rv=a:%s" % "".join("%d," % v for v in RA[:DIMS[c % 3]]), False, "=>"),
     "ialloc": ("int *", " +dimension({dim})+deref(allocatable)", "int *", "RA", "integer(C_INT), allocatable :: rv(:)",
                "call parr('rv', rv)", lambda c: "rv=a:%s" % "".join("%d," % v for v in RA[:DIMS[c % 3]]), False, "="),
+    "ialloc2": ("int *", " +dimension({dim},{dim2})+deref(allocatable)", "int *", "RA", "integer(C_INT), allocatable :: rv(:,:)",
+                "call parr('rv_shape', int(shape(rv), C_INT)); call parr('rv', reshape(rv, [size(rv)]))",
+                lambda c: "rv_shape=a:%s rv=a:%s" % ("".join("%d," % x for x in _ext(c, 2)[0]), "".join("%d," % v for v in RA[:_ext(c, 2)[1]])), False, "="),
+    "iptr2": ("int *", " +dimension({dim},{dim2})+deref(pointer)", "int *", "RA", "integer(C_INT), pointer :: rv(:,:)",
+              "call parr('rv_shape', int(shape(rv), C_INT)); call parr('rv', reshape(rv, [size(rv)]))",
+              lambda c: "rv_shape=a:%s rv=a:%s" % ("".join("%d," % x for x in _ext(c, 2)[0]), "".join("%d," % v for v in RA[:_ext(c, 2)[1]])), False, "=>"),
+    "ialloc3": ("int *", " +dimension({dim},{dim2},{dim3})+deref(allocatable)", "int *", "RA", "integer(C_INT), allocatable :: rv(:,:,:)",
+                "call parr('rv_shape', int(shape(rv), C_INT)); call parr('rv', reshape(rv, [size(rv)]))",
+                lambda c: "rv_shape=a:%s rv=a:%s" % ("".join("%d," % x for x in _ext(c, 3)[0]), "".join("%d," % v for v in RA[:_ext(c, 3)[1]])), False, "="),
+    "iptr3": ("int *", " +dimension({dim},{dim2},{dim3})+deref(pointer)", "int *", "RA", "integer(C_INT), pointer :: rv(:,:,:)",
+              "call parr('rv_shape', int(shape(rv), C_INT)); call parr('rv', reshape(rv, [size(rv)]))",
+              lambda c: "rv_shape=a:%s rv=a:%s" % ("".join("%d," % x for x in _ext(c, 3)[0]), "".join("%d," % v for v in RA[:_ext(c, 3)[1]])), False, "=>"),
     "vecres": ("std::vector<int>", "", "std::vector<int>", "std::vector<int>(RA, RA + VS[cnt % 4])",
                "integer(C_INT), allocatable :: rv(:)", "call parr('rv', rv)",
                lambda c: "rv=a:%s" % "".join("%d," % v for v in RA[:VSZ[c % 4]]), True, "="),
@@ -580,6 +733,8 @@ RESULTS = {
 RES_C = ["void", "void", "int", "double", "bool", "cstr", "cstr_len"]
 RES_CXX = RES_C + ["string", "string_ref", "string_len"]
 RES_DIM = ["iptr", "ialloc"]
+RES_DIM2 = ["ialloc2", "iptr2"]
+RES_DIM3 = ["ialloc3", "iptr3"]
 
 
 class Func:
@@ -610,7 +765,7 @@ class Func:
         if any(getattr(a, "no_cfi", False) for a in self.args) or self.res == "vecres":
             return False
         stringy = any(isinstance(a, (CstrIn, CstrOut, CstrInout, StringIn, StringOut, StringInout)) for a in self.args)
-        return not (self.res in ("iptr", "ialloc") and stringy)
+        return not (self.res in ("iptr", "ialloc", "iptr2", "ialloc2", "iptr3", "ialloc3") and stringy)
 
     def cxx_only(self):
         return any(a.cxx_only for a in self.args) or (self.res != "void" and RESULTS[self.res][7]) or self.overload_of is not None
@@ -664,6 +819,11 @@ def fixed_spec(cxx):
             funcs.append(Func("r%d" % i, res, [IntVal("q%d" % i)]))
     for i, res in enumerate(RES_DIM):
         funcs.append(Func("rd%d" % i, res, [DimArg("dq%d" % i)]))
+    for i, res in enumerate(RES_DIM2):
+        funcs.append(Func("re%d" % i, res, [DimArg("ea%d" % i), DimArg2("eb%d" % i)]))
+    for i, res in enumerate(RES_DIM3):
+        funcs.append(Func("rf%d" % i, res, [DimArg("fa%d" % i), DimArg2("fb%d" % i), DimArg3("fc%d" % i)]))
+    funcs.append(Func("gvoid", "void", [GenVoid("addr")]))
     if cxx:
         funcs.append(Func("rvec", "vecres", [IntVal("qv")]))
     funcs += generic_funcs(cxx, "")
@@ -687,13 +847,16 @@ def yaml_text(lib, funcs, cxx, options):
         rt = "void" if f.res == "void" else RESULTS[f.res][0]
         attrs = "" if f.res == "void" else RESULTS[f.res][1]
         if "{dim}" in attrs:
-            attrs = attrs.format(dim=[a.n for a in f.args if isinstance(a, DimArg)][0])
+            dn = [a.n for a in f.args if isinstance(a, DimArg)]
+            attrs = attrs.format(dim=dn[0], dim2=dn[1] if len(dn) > 1 else "", dim3=dn[2] if len(dn) > 2 else "")
         decl = "%s %s(%s)%s" % (rt, f.name, ", ".join(a.yaml() for a in f.args) if f.args or cxx else "void", attrs)
         dd = {"decl": decl}
         if f.is_template():
             dd = {"decl": "template<typename T> " + decl, "cxx_template": [{"instantiation": "<int>"}, {"instantiation": "<double>"}]}
         if f.generic_list():
             dd["fortran_generic"] = f.generic_list()
+        if any(getattr(a, "needs_type_defines", False) for a in f.args):
+            dd["fstatements"] = {"c": {"c_helper": "ShroudTypeDefines"}}   # SH_TYPE_ codes into types<lib>.h
         decls.append(dd)
     d = {"library": lib, "cxx_header": lib + (".hpp" if cxx else ".h"), "language": "c++" if cxx else "c",
          "options": dict({"wrap_python": False, "wrap_lua": False}, **options), "declarations": decls}
@@ -705,8 +868,12 @@ def lib_sources(lib, funcs, cxx):
     if cxx:
         hdr += ["#include <string>", "#include <vector>"]
     else:
-        hdr += ["#include <stdbool.h>"]
+        hdr += ["#include <stdbool.h>", "#include <stddef.h>"]
     src = ['#include "%s"' % (lib + (".hpp" if cxx else ".h")), "#include <stdio.h>", "#include <string.h>"]
+    if any(getattr(a, "needs_type_defines", False) for f in funcs for a in f.args):
+        src.append('#include "types%s.h"' % lib)
+    if not cxx:
+        src.append("#include <stddef.h>")
     src.append("static const char *RS[] = {%s};" % ", ".join('"%s"' % s for s in RES_STR))
     src.append("static int RA[] = {%s};" % ", ".join(map(str, RA)))
     src.append("static const int VS[] = {%s};" % ", ".join(map(str, VSZ)))
@@ -829,7 +996,8 @@ def driver_source(lib, funcs):
             body.append("rv_%s %s %s(%s)" % (f.res, op, f.name, actuals))
         body.append("write(*,'(A)', advance='no') 'F %s'" % f.name)
         if f.res != "void":
-            body.append(RESULTS[f.res][5].replace("rv)", "rv_%s)" % f.res))
+            for st in RESULTS[f.res][5].split("; "):
+                body.append(re.sub(r"\brv\b", "rv_%s" % f.res, st).replace("'rv_%s" % f.res, "'rv"))
         for a in vis:
             body += a.fprint()
         body.append("write(*,'(A)') ''")
